@@ -96,7 +96,7 @@ def run(ctx):
 
     quick = ctx.tier == "quick"
     rnd = random.Random(ctx.seed)
-    ctx.rule = ("R: every entry table <= MaxLines over 36 entry shapes (TLC-exported expected table) x chunk schedules "
+    ctx.rule = ("R: every entry table <= MaxLines over 24 basic entry shapes (<= 3 lines) and all 72 (<= 2 lines) (TLC-exported expected table) x chunk schedules "
                 "{whole, every 2-split, 1-byte, fixed 2..7}; every abstract file (header variants, truncations) x every partition. "
                 "V: random inventories x random chunk sizes. non-trivial = table has a duplicate key, a malformed line, '$' or a spaced name / file read in > 1 chunk")
     ctx.assumptions += ["streaming zlib decompression is a homomorphism over concatenation",
@@ -119,23 +119,26 @@ def run(ctx):
     ctx.add_tlc("InvReader_dev_dropcarry", rd, "expected counterexample found")
 
     # ---- T: entry table ---------------------------------------------------------------
-    ml = 3
-    cfg = _cfg(ctx, "ie_mc.cfg", {"MaxLines": ml, "DevKeepLast": False}, invariants=["SameSet", "NoDupKeys", "Nested"])
-    r = tlc.run("InvEntry", cfg, wd=ctx.wd, coverage=True)
-    tlc.expect_holds(r, "InvEntry M |= S")
-    ctx.add_tlc("InvEntry_mc", r)
-    cfg = _cfg(ctx, "ie_dev.cfg", {"MaxLines": 2, "DevKeepLast": True}, invariants=["SameSet"])
+    scopes = [("core", 3 if quick else 4), ("all", 2 if quick else 3)]
+    rgs = []
+    for shapes, ml in scopes:
+        cfg = _cfg(ctx, f"ie_mc_{shapes}.cfg", {"MaxLines": ml, "Shapes": shapes, "DevKeepLast": False}, invariants=["SameSet", "NoDupKeys", "Nested", "Emit"])
+        r = tlc.run("InvEntry", cfg, wd=ctx.wd, timeout=3000, heap="12g")
+        tlc.expect_holds(r, f"InvEntry[{shapes}] M |= S")
+        ctx.add_tlc(f"InvEntry_mc_{shapes}", r, f"entry tables <= {ml} lines over the {'24 basic' if shapes == 'core' else '72'} entry shapes")
+        rgs += r.records
+    cfg = _cfg(ctx, "ie_cov.cfg", {"MaxLines": 2, "Shapes": "core", "DevKeepLast": False}, invariants=["SameSet", "NoDupKeys", "Nested"])
+    rcv = tlc.run("InvEntry", cfg, wd=ctx.wd, coverage=True)
+    ctx.add_tlc("InvEntry_cov", rcv)
+    cfg = _cfg(ctx, "ie_dev.cfg", {"MaxLines": 2, "Shapes": "core", "DevKeepLast": True}, invariants=["SameSet"])
     rd = tlc.run("InvEntry", cfg, wd=ctx.wd)
     tlc.expect_violation(rd, "SameSet", "InvEntry Dev_KeepLast")
     ctx.add_tlc("InvEntry_dev_keeplast", rd, "expected counterexample found")
 
     # ---- R: entry tables ----------------------------------------------------------------
-    cfg = _cfg(ctx, "ie_gen.cfg", {"MaxLines": ml if quick else 4, "DevKeepLast": False}, invariants=["Emit"])
-    if quick:
-        rg = tlc.run("InvEntry", cfg, wd=ctx.wd)
-    else:
-        rg = tlc.run("InvEntry", cfg, wd=ctx.wd, timeout=3000, heap="12g")
-    ctx.add_tlc("InvEntry_gen", rg)
+    class _RG:
+        records = rgs
+    rg = _RG
     if len(rg.records) < 1000:
         raise tlc.MachineryFailure("InvEntry export too small")
     for idx, rec in enumerate(rg.records):
